@@ -1,6 +1,7 @@
 package main
 
 import (
+	"go/token"
 	"fmt"
 	"go/types"
 	"regexp"
@@ -585,6 +586,11 @@ func checkRecorderConfigValidation(w *World, r *Report, e *termEnv) {
 				if rt == "nil" {
 					okAll = false
 				}
+				if u, ok := p.Ret.Results[0].(*ssa.UnOp); ok {
+					if g, ok := u.X.(*ssa.Global); ok && !sentinelError(g) {
+						okAll = false // a package variable that is not provably a non-nil error
+					}
+				}
 			} else if rt != "nil" && !hasGuard(p.Conds, "le("+min+", "+max+")") {
 				// other rejections are fine
 			}
@@ -605,6 +611,9 @@ func checkRecorderConfigValidation(w *World, r *Report, e *termEnv) {
 		if !ok || fn.Signature.Results().Len() != 2 || !isPtrTo(fn.Signature.Results().At(0).Type(), T) {
 			continue
 		}
+		if forwardsTo(fn) != nil {
+			continue // a thin front of another constructor of the package: that one is checked
+		}
 		// every return with a non-nil config is dominated by "validator(...) == nil"
 		okf := true
 		saw := false
@@ -623,6 +632,16 @@ func checkRecorderConfigValidation(w *World, r *Report, e *termEnv) {
 				s := g.String()
 				if strings.HasPrefix(s, "eq(") && strings.Contains(s, "RecorderConfig."+validator.Name()+"(") {
 					has = true
+				}
+				// the same on the instruction itself (the validator may be small enough to be unfolded in the term)
+				if bo, ok := g.If.Cond.(*ssa.BinOp); ok && ((bo.Op == token.EQL && g.Pos) || (bo.Op == token.NEQ && !g.Pos)) {
+					for _, pair := range [][2]ssa.Value{{bo.X, bo.Y}, {bo.Y, bo.X}} {
+						c, isCall := pair[0].(*ssa.Call)
+						k, isConst := pair[1].(*ssa.Const)
+						if isCall && isConst && k.IsNil() && c.Call.StaticCallee() == validator {
+							has = true
+						}
+					}
 				}
 			}
 			if !has {
@@ -867,7 +886,7 @@ func propC04(w *World, r *Report) {
 		}
 		r.Check(nObs >= 1, "S7", "the window is consulted", "-", fmt.Sprint(nObs))
 		r.Check((got == confWin || wrapped && strings.Contains(got, confWin)) && !reassigned, "S7", "the processor consults the recording window of its recorder configuration (never reassigned)", w.Pos(c.Ctor.Pos()), got)
-		if nc := w.Func("recorder", "NewConfig"); nc != nil {
+		if nc := w.LoaderFunc("recorder", "NewConfig"); nc != nil {
 			we := newTermEnv(w)
 			we.valueHelpers = true // the window may be built in an extracted helper that is handed the two sections
 			ws := storesInto(w, we, nc, modPath+"/recorder", "RecorderConfig")["Window"]
